@@ -49,4 +49,17 @@ def cinner (a b : List (Cx α)) : Cx α := Cx.sum (cmul a b)
 /-- `np.vdot(a, b)`: conjugates its FIRST argument -/
 def cvdot (a b : List (Cx α)) : Cx α := Cx.sum (cmul (cconj a) b)
 
+/-! additions for the differential bin function `__compute_differential_flow_bin` (C11, tie T) -/
+/-- complex vector ± real vector, element-wise (numpy promotes the real operand to `x + 0j`) -/
+def cradd (c : List (Cx α)) (r : List α) : List (Cx α) := List.zipWith (fun z x => z + Cx.ofReal x) c r
+def crsub (c : List (Cx α)) (r : List α) : List (Cx α) := List.zipWith (fun z x => z - Cx.ofReal x) c r
+/-- complex scalar divided by a real scalar -/
+def cdivs (z : Cx α) (s : α) : Cx α := ⟨z.re / s, z.im / s⟩
+/-- `np.divide(num, w, out=np.zeros_like(num), where=(w != 0))` for complex `num`, real `w`: entries with
+`w = 0` stay 0.  `w != 0` is tested as `w < 0 ∨ 0 < w` (the same for every non-NaN float; over ℝ it is `w ≠ 0`) -/
+def cdivGuard [LT α] [DecidableLT α] (num : List (Cx α)) (w : List α) : List (Cx α) :=
+  List.zipWith (fun z x => if x < ((0 : Nat) : α) ∨ ((0 : Nat) : α) < x then cdivs z x else Cx.ofReal ((0 : Nat) : α)) num w
+/-- `np.vdot(w, c)` with a REAL first argument (conjugation is the identity) and a complex second one -/
+def rcvdot (w : List α) (c : List (Cx α)) : Cx α := Cx.sum (rcmul w c)
+
 end SparkxVerif.Vec
